@@ -271,16 +271,90 @@ structure Env (F : Type) where
   dict : Dict
   lookup : Lookup
 
+/-! The four scanners of `P21.Lex` that end with their own `CheckRemainingInput`, restated over `cri` (the repaired
+`CheckRemainingInput` skips comments); `readIntegerC_eq` etc. in `P21.ReaderLemmas` show they *are* the `P21.Lex`
+definitions for the unrepaired source. -/
+
+def readIntegerC (cfg : RWCfg) (lex : LexCfg) (delims : Option (List Byte)) (s : IStream) (err : Sev) :
+    Option Int × IStream × Sev :=
+  let s1 := s.ws
+  let blank := s1.eof
+  let (o, s2) := s1.extractLong
+  let val : Option Int := if !s2.failed then o else none
+  let err1 := if s2.failed && lex.intReportsFail && !blank then err.greater .warning else err
+  let (s3, err2) := cri cfg delims s2 err1
+  (val, s3, err2)
+
+def readRealC {F} (ops : FloatOps F) (cfg : RWCfg) (lex : LexCfg) (delims : Option (List Byte)) (s : IStream) (err : Sev) :
+    Outcome (Option F × IStream × Sev) :=
+  let s1 := s.ws
+  if !s1.good then
+    let s2 : IStream := { s1 with fail := true }
+    let (s3, err2) := cri cfg delims s2 err
+    .ok (none, s3, err2)
+  else
+    let (buf, rest, e) := realCollect s1.right
+    if buf.length ≥ lex.realBuf then .overflow
+    else
+      let s2 : IStream := { s1 with left := buf.reverse ++ s1.left, right := rest, eof := rest.isEmpty }
+      let text := (IStream.scanFloat [] buf).1
+      match ops.conv text with
+      | .ok v =>
+        let (s3, err2) := cri cfg delims s2 (err.greater e)
+        .ok (some v, s3, err2)
+      | _ =>
+        let err1 := if lex.realReportsFail && !buf.isEmpty then err.greater .warning else err
+        let (s3, err2) := cri cfg delims s2 err1
+        .ok (none, s3, err2)
+
+def readNumberC {F} (ops : FloatOps F) (cfg : RWCfg) (lex : LexCfg) (delims : Option (List Byte)) (s : IStream) (err : Sev) :
+    Option F × IStream × Sev :=
+  let s1 := s.ws
+  let blank := s1.eof
+  let (ot, s2) := s1.extractFloatText
+  let (val, s3) : Option F × IStream :=
+    match ot with
+    | none => (none, s2)
+    | some text =>
+      match ops.conv text with
+      | .ok v => (some v, s2)
+      | _ => (none, s2.setFail true)
+  let err1 := if s3.failed && lex.numberReportsFail && !blank then err.greater .warning else err
+  let (s4, err2) := cri cfg delims s3 err1
+  (val, s4, err2)
+
+def readEntityRefC (cfg : RWCfg) (lookup : Int → RefLookup) (delims : Option (List Byte)) (s : IStream) (err : Sev) :
+    Option Int × IStream × Sev :=
+  let s1 := s.ws
+  let (oc, s2) := s1.getChar
+  let c := oc.getD 0
+  if (c == 35 || c == 64) && oc.isSome then
+    let err0 := if c == 64 then err.greater .warning else err
+    let (oi, s3) := s2.extractInt32
+    if s3.failed then
+      let (s4, e) := cri cfg delims s3 (err0.greater .warning)
+      (none, s4, e)
+    else
+      let (s4, e) := cri cfg delims s3 err0
+      let id := oi.getD (-1)
+      match lookup id with
+      | .found => (some id, s4, e)
+      | .wrongType => (none, s4, e.greater .warning)
+      | .missing => (none, s4, e.greater .warning)
+  else
+    let (s3, e) := cri cfg delims (s2.putback c) err
+    (none, s3, e)
+
 /-- one aggregate element of a non-select, non-generic type, *without* the `CheckRemainingInput` the element loop adds:
     `IntNode/RealNode/StringNode/BinaryNode/EnumNode/EntityNode::STEPread` -/
 def scalarNodeRead {F} (env : Env F) (ty : ElemTy) (s : IStream) : M (Sev × Atom F × IStream) :=
   let d := some attrDelims
   match ty with
   | .integer =>
-    let (v, s1, e) := readInteger env.lex d s .null
+    let (v, s1, e) := readIntegerC env.cfg env.lex d s .null
     pure (e, valueToAtom (intValue v : Value F), s1)
   | .real | .number => do
-    let (v, s1, e) ← liftOutcome (readReal env.ops env.lex d s .null)
+    let (v, s1, e) ← liftOutcome (readRealC env.ops env.cfg env.lex d s .null)
     pure (e, valueToAtom (realValue env.ops v), s1)
   | .string =>
     let (t, s1, e) := stringRead s .null
@@ -298,7 +372,7 @@ def scalarNodeRead {F} (env : Env F) (ty : ElemTy) (s : IStream) : M (Sev × Ato
     let (v, s1, e) := enumRead env.lex (.enum items) false s .null
     pure (e, valueToAtom (enumValue (.enum items) v : Value F), s1)
   | .entity target =>
-    let (v, s1, e) := readEntityRef (refLookup env.lookup target) d s .null
+    let (v, s1, e) := readEntityRefC env.cfg (refLookup env.lookup target) d s .null
     pure (e, match v with | some id => .ref id | none => .unset, s1)
   | .select _ => throw (.unmodelled "scalarNodeRead on select")
   | .generic => throw (.unmodelled "scalarNodeRead on generic")
@@ -322,7 +396,7 @@ def selContentRead {F} (env : Env F) (m : SelMember) (s : IStream) : M (Sev × A
     scalarNodeRead env (if m.ty == .number then .real else m.ty) s
   | .entity target =>
     -- `ReadEntityRef` then `CanBe( _app_inst->eDesc )`; a mismatch only sets SEVERITY_USERMSG and nullifies
-    let (v, s1, e) := readEntityRef (fun id => match env.lookup id with | some _ => .found | none => .missing)
+    let (v, s1, e) := readEntityRefC env.cfg (fun id => match env.lookup id with | some _ => .found | none => .missing)
       (some attrDelims) s .null
     match v with
     | some id =>
@@ -358,7 +432,7 @@ def selectRead {F} (env : Env F) (sd : SelectD) (s : IStream) : M (Sev × Elem F
   else if c == 44 || c == 0 then pure (.warning, .atom .unset, s2.putback c)
   else if c == 35 then
     let s3 := s2.putback c
-    let (v, s4, _) := readEntityRef (fun id => match env.lookup id with | some _ => .found | none => .missing)
+    let (v, s4, _) := readEntityRefC env.cfg (fun id => match env.lookup id with | some _ => .found | none => .missing)
       (some attrDelims) s3 .null
     match v with
     | some id =>
@@ -499,19 +573,8 @@ def attrSTEPread {F} (env : Env F) (strict : Bool) (a : AttrD) (s : IStream) : M
         pure (e2, .one v, s4)
     | .one .generic => throw (.unmodelled "attribute of generic type")
     | .one ety =>
-      match ety.kind? with
-      | none => throw (.unmodelled "attribute kind")
-      | some k =>
-        let lk : Int → RefLookup := match ety with
-          | .entity t => refLookup env.lookup t
-          | _ => fun _ => .missing
-        if env.cfg.criSkipsComments then
-          -- same dispatch, with the repaired CheckRemainingInput
-          let (e, av, s3) ← scalarNodeReadAttr env ety a.optional s2
-          pure (e, .one (.atom av), s3)
-        else
-          let r ← liftOutcome (attrRead env.ops env.lex lk k a.optional s2)
-          pure (r.sev, .one (.atom (valueToAtom r.val)), r.s)
+      let (e, av, s3) ← scalarNodeReadAttr env ety a.optional s2
+      pure (e, .one (.atom av), s3)
 where
   /-- the scalar cases of `STEPattribute::STEPread` with `cri` in place of `CheckRemainingInput` -/
   scalarNodeReadAttr {F} (env : Env F) (ety : ElemTy) (optional : Bool) (s : IStream) : M (Sev × Atom F × IStream) := do
@@ -521,6 +584,12 @@ where
       let (v, s1, e) := enumRead env.lex k optional s .null
       let (s2, e2) := cri env.cfg (some attrDelims) s1 e
       pure (e2, valueToAtom (enumValue k v : Value F), s2)
+    | .number =>
+      let (v, s1, e) := readNumberC env.ops env.cfg env.lex (some attrDelims) s .null
+      pure (e, valueToAtom (realValue env.ops v), s1)
+    | .integer | .real | .entity _ =>
+      -- ReadInteger / ReadReal / ReadEntityRef end with their own CheckRemainingInput; no second one here
+      scalarNodeRead env ety s
     | _ =>
       let (e, av, s1) ← scalarNodeRead env ety s
       let (s2, e2) := cri env.cfg (some attrDelims) s1 e
